@@ -127,7 +127,41 @@ func Run(ctx *common.Ctx) int {
 			}
 		}
 	})
-	samples = append(samples, map[string]interface{}{"family": "lengths", "lengths": "every 0..4096, 12500, 125000", "contents": contents})
+	// far larger requests with stuck and heavily biased contents (a counter wide enough for random data need not be wide enough here)
+	bigLens := []int{65535, 65536, 65537, 69000, 131072, 262144, 262145, 1 << 20}
+	if !quick {
+		bigLens = append(bigLens, 1<<21, 1<<22, 1<<24)
+	}
+	common.ParFor(len(bigLens), func(li int) {
+		l := bigLens[li]
+		for _, kind := range []string{"zeros", "ones", "0xA5", "one value 65536+256 times, rest uniform", "filler"} {
+			var data []byte
+			switch kind {
+			case "0xA5":
+				data = make([]byte, l)
+				for i := range data {
+					data[i] = 0xA5
+				}
+			case "one value 65536+256 times, rest uniform":
+				if l < 131072 {
+					continue
+				}
+				data = make([]byte, l)
+				for i := range data {
+					if i < 65536+256 {
+						data[i] = 0x3C
+					} else {
+						data[i] = byte(i)
+					}
+				}
+			default:
+				data = mk(kind, l)
+			}
+			s.one(data, func() interface{} { return map[string]interface{}{"bytes": l, "content": kind} })
+			s.distinct.Add(fmt.Sprint("big ", l, kind))
+		}
+	})
+	samples = append(samples, map[string]interface{}{"family": "lengths", "lengths": "every 0..4096, 12500, 125000; 65535..2^20 (thorough 2^24) with stuck / biased / filler contents", "contents": contents})
 	// ---------- m = 2 regime: every histogram (c0,c1,c2,c3) of the 2-bit patterns for L bytes ----------
 	Ls := []int{16, 17, 39}
 	if !quick {
